@@ -1,6 +1,7 @@
 import AscentVerif.Model.Sexp
 import AscentVerif.Model.Engine
 import AscentVerif.Model.StdInterp
+import AscentVerif.Model.Hir
 namespace AscentVerif.Driver
 open AscentVerif AscentVerif.Std AscentVerif.Engine
 
@@ -110,6 +111,31 @@ def parseKind : Sexp → Option LatKind
   | .atom "opt" => some .optMax
   | _ => none
 
+partial def exVars : Ex → List Var
+  | .const _ => []
+  | .var x => [x]
+  | .add a b | .sub a b | .mul a b | .min a b | .max a b => exVars a ++ exVars b
+  | .some a | .single a => exVars a
+
+partial def bxVars : Bx → List Var
+  | .tt => []
+  | .lt a b | .le a b | .eq a b | .ne a b => exVars a ++ exVars b
+  | .and a b | .or a b => bxVars a ++ bxVars b
+  | .not a => bxVars a
+
+def stdVars : Hir.VarsOf Ex Bx := ⟨exVars, bxVars⟩
+
+private def sortStrs (l : List String) : List String := l.mergeSort (· ≤ ·)
+
+/-- the compilation plan in the canonical form tie A compares with the real `mir_summary`: SCCs as a sorted list of
+`looping=<b> dyn=<rels> :: <sorted MIR rule lines>` -/
+def mirCanon (p : SProgram) (order : SccOrder) : String :=
+  let sccs := order.map fun scc =>
+    let dyn := dynRels p scc
+    let lines := (sccRules p scc).flatMap (Hir.ruleLines stdVars dyn)
+    s!"looping={isLooping p scc} dyn=" ++ ",".intercalate (sortStrs (dyn.map fun r => s!"r{r}")) ++ " :: " ++ " ;; ".intercalate (sortStrs lines)
+  " || ".intercalate (sortStrs sccs)
+
 structure ProgDef where
   prog : SProgram
   kinds : List LatKind
@@ -211,6 +237,9 @@ def handleEng (s : EngStore) : List Sexp → Option (EngStore × String)
   | [.atom "iters", .atom inst] => do
     let i ← (s.insts.find? (·.1 == inst)).map (·.2)
     some (s, "iters " ++ " ".intercalate (i.iters.map toString))
+  | [.atom "mir", .atom pid] => do
+    let pd ← (s.progs.find? (·.1 == pid)).map (·.2)
+    some (s, "mir " ++ mirCanon pd.prog pd.order)
   | [.atom "order", .atom pid] => do
     let pd ← (s.progs.find? (·.1 == pid)).map (·.2)
     some (s, "order " ++ " ".intercalate (pd.order.map fun c => "[" ++ ",".intercalate (c.map toString) ++ "]"))
